@@ -17,25 +17,28 @@ Definition spatial (dd : Z) (ns : list Z) (v : var) : list Z :=
 Definition subset (a b : list Z) : bool := forallb (fun x => has x b) a.
 Definition same_set (a b : list Z) : bool := subset a b && subset b a.
 
-(* the variables collected under one key of dimension_sets for the depth dimension dd *)
-Definition in_group (dd : Z) (ns sp : list Z) (v : var) : bool :=
-  has dd (v_dims v) && negb (is_nil (spatial dd ns v)) && same_set (spatial dd ns v) sp.
+(* the variables collected under one key of dimension_sets for the depth dimension dd; `skip` names the bounds variables of
+   the depth coordinates, which describe the depth axis itself and are never grouped (repair the repair of ocean_floor: see DESIGN section 12) *)
+Definition in_group (dd : Z) (ns skip sp : list Z) (v : var) : bool :=
+  has dd (v_dims v) && negb (has (v_name v) skip) && negb (is_nil (spatial dd ns v)) && same_set (spatial dd ns v) sp.
 
-(* variable_names[0]: the first data variable of the group, whose columns locate the floor for the whole group *)
-Definition reference (dd : Z) (ns : list Z) (vs : list var) (v : var) : option var :=
-  find (in_group dd ns (spatial dd ns v)) vs.
+(* variable_names[0]: the first variable of the group (data variables and coordinates alike, in dataset order), whose columns
+   locate the floor for the whole group *)
+Definition reference (dd : Z) (ns skip : list Z) (vs : list var) (v : var) : option var :=
+  find (in_group dd ns skip (spatial dd ns v)) vs.
 
 Inductive action := Untouched | Floored (dd : Z) (ref : Z) | Dropped.
 
 (* the depth dimension of a variable (the code assumes at most one) *)
 Definition depth_dim_of (dds : list Z) (v : var) : option Z := find (fun d => has d (v_dims v)) dds.
 
-Definition action_of (dds ns : list Z) (vs : list var) (v : var) : action :=
+Definition action_of (dds ns skip : list Z) (vs : list var) (v : var) : action :=
   match depth_dim_of dds v with
   | None => Untouched
   | Some dd =>
-      if is_nil (spatial dd ns v) then Dropped      (* nothing but depth (and time): removed with the dimension *)
-      else match reference dd ns vs v with
+      if has (v_name v) skip then Dropped           (* bounds of a depth coordinate: removed with the dimension *)
+      else if is_nil (spatial dd ns v) then Dropped (* nothing but depth (and time): removed with the dimension *)
+      else match reference dd ns skip vs v with
            | Some r => Floored dd (v_name r)
            | None => Dropped
            end
@@ -46,8 +49,8 @@ Definition result_dims (dds : list Z) (v : var) : list Z := filter (fun d => neg
 
 (* the plan for a dataset: per data variable its name, what happens to it, and the dimensions it is left with
    (None: the variable is not in the result) *)
-Definition plan (dds ns : list Z) (vs : list var) : list (Z * action * option (list Z)) :=
-  map (fun v => let a := action_of dds ns vs v in
+Definition plan (dds ns skip : list Z) (vs : list var) : list (Z * action * option (list Z)) :=
+  map (fun v => let a := action_of dds ns skip vs v in
                 (v_name v, a, match a with Dropped => None | _ => Some (result_dims dds v) end)) vs.
 
 Definition show_action (a : action) : Z * Z * Z :=
